@@ -16,7 +16,7 @@ from vmc.core.report import HarnessError
 
 FG = (0.2, 0.9, 0.4, 1.0)
 SCENE_DIMS = ("outline", "stack", "place", "donor_paint", "copy_paint", "lin_vec", "lin_gt", "lin_spread", "lin_stops",
-              "rad_geom", "rad_gt", "rad_spread", "rad_stops", "grp", "vb_origin", "vb_size", "vb_aspect", "where", "grad_twice", "shared_grad", "twin", "vb_b")
+              "rad_geom", "rad_gt", "rad_spread", "rad_stops", "grp", "vb_origin", "vb_size", "vb_aspect", "where", "grad_twice", "shared_grad", "twin", "vb_b", "clone")
 
 
 def _scene_cases():
